@@ -1,6 +1,5 @@
 (* ProviderProofs.v — C15 / C16: an inductive invariant of Model/ProviderSys.v. *)
 From Tramp Require Import Model.Base Model.Node Model.Provider Model.ProviderSys.
-From Hammer Require Import Tactics.
 From Coq Require Import ZifyBool ZifyNat ZifyN.
 
 (* ---------- list plumbing ---------- *)
